@@ -326,6 +326,15 @@ def r5(ctx, backpressure=True):
       tgt, bound = inner, []
     if isinstance(tgt, ast.Name) and tgt.id in ht.nested:
       cb = ht.nested[tgt.id]
+      for _hop in range(2):
+        # a nested function that only forwards to another nested function stands for it
+        body_ = [s_ for s_ in cb.node.body if not (isinstance(s_, ast.Expr) and isinstance(s_.value, ast.Constant))
+                 and not (isinstance(s_, ast.Return) and (s_.value is None or (isinstance(s_.value, ast.Constant) and s_.value.value is None)))]
+        if (len(body_) == 1 and isinstance(body_[0], (ast.Expr, ast.Return)) and isinstance(body_[0].value, ast.Call) and isinstance(body_[0].value.func, ast.Name)
+            and body_[0].value.func.id in ht.nested and not body_[0].value.args):
+          cb = ht.nested[body_[0].value.func.id]
+        else:
+          break
     elif isinstance(tgt, ast.Attribute) and U(tgt.value) == 'self' and ht.cls is not None:
       m = prog.lookup_method(ht.cls, tgt.attr)
       if m is not None:
